@@ -18,6 +18,7 @@ CONSTANTS
   Weak_NoCentre = FALSE
   Weak_TieHighAddr = FALSE
   Weak_FloorDiv = FALSE
+  Weak_RoundSkipSingleIncrement = FALSE
 INIT CaseInit
 NEXT CaseNext
 INVARIANTS CaseAtomic CaseOrderIndependent CaseWellFormed CaseMatchesRef CaseCopySame PreWellFormed
